@@ -1,5 +1,6 @@
 -- C10: Merkle openings verify for committed leaves and only for them (property theorems)
 import WinterProofs.Lemmas.C10Single
+import WinterProofs.Lemmas.C10Bind
 
 namespace WinterProofs.C10
 open Model.Merkle
@@ -59,5 +60,52 @@ theorem single_shape_rejected (H : Hasher D) [DecidableEq D] (root : D) (i : Nat
   rw [if_neg (by simp [usizeBits]; omega), pow2_ok (by omega)]
   simp only [Res.ok_bind]
   rw [if_pos h3]
+
+/-! ## Batch openings (`prove_batch` / `BatchMerkleProof::get_root` / `verify_batch`) -/
+
+/-- Binding of the code-shaped verifier: if `merge` is collision free and `verify_batch` accepts an
+    opening of the tree's depth against the tree's root, then the positions are distinct and in range
+    and every claimed leaf is the committed leaf at its position, whatever the order of the
+    position list and whatever the nodes of the opening.  (The depth of an opening is supplied by
+    the verifier — `deserialize(…, depth)` — and must be the tree's: an opening of smaller depth
+    opens internal nodes as if they were leaves.) -/
+theorem batch_binding (H : Hasher D) [DecidableEq D] (inj : MergeInj H) (leaves : List D) (d : Nat)
+    (hd1 : 1 ≤ d) (hl : leaves.length = 2 ^ d) (root : D) (hroot : (treeOf H leaves).root = .ok root)
+    (p : BatchProof D) (hdp : p.depth = d) (idxs : List Nat) (hv : verifyBatch H root idxs p = .ok ()) :
+    idxs.Nodup ∧ idxs.length = p.leaves.length ∧
+    ∀ j (hj : j < idxs.length), idxs[j] < 2 ^ d ∧ p.leaves[j]? = leaves[idxs[j]]? := by
+  have wf : TreeWF H (treeOf H leaves) d := tree_wf H leaves d hd1 hl
+  obtain ⟨root', hr1, hr2⟩ := root_of_wf H _ d wf
+  rw [hr2] at hroot
+  injection hroot with hroot
+  subst hroot
+  have hg := verifyBatch_ok H root' idxs p hv
+  have hvr := treeVal_root H _ d wf root' hr1
+  rw [← hvr] at hg
+  subst hdp
+  obtain ⟨_, _, hlen, _, imap, _, _, _, _, _, hm, _⟩ := getRoot_ok_stages H p idxs _ hg
+  obtain ⟨_, hnd, hrange, _⟩ := mapIndexes_ok hm
+  refine ⟨hnd, hlen, ?_⟩
+  intro j hj
+  have hr := hrange _ (List.getElem_mem hj)
+  refine ⟨hr, ?_⟩
+  rw [getRoot_binding H inj (treeVal H (treeOf H leaves)) p idxs (treeVal_wf H _ _ wf) hd1 hg j hj]
+  exact treeVal_leaf H _ _ wf _ hr
+
+/-- `get_root` and `verify_batch` never panic, whatever the opening and the position list: missing
+    or extra nodes, rows and leaves, any depth `0..255`, duplicated or out-of-range positions (false
+    on the pinned tree for depth ≥ 64; repaired by 3957985) -/
+theorem batch_no_panic (H : Hasher D) [DecidableEq D] (root : D) (p : BatchProof D) (idxs : List Nat) :
+    ((∃ r, getRoot H p idxs = .ok r) ∨ ∃ e, getRoot H p idxs = .err e) ∧
+    (verifyBatch H root idxs p = .ok () ∨ ∃ e, verifyBatch H root idxs p = .err e) := by
+  have hs := getRoot_sat H p idxs
+  refine ⟨hs.no_panic, ?_⟩
+  unfold verifyBatch
+  rcases hs.no_panic with ⟨r, hr⟩ | ⟨e, he⟩
+  · rw [hr]; simp only [Res.ok_bind]
+    split
+    · exact Or.inr ⟨_, rfl⟩
+    · exact Or.inl rfl
+  · rw [he]; exact Or.inr ⟨e, rfl⟩
 
 end WinterProofs.C10
